@@ -217,6 +217,10 @@ type RunObs struct {
 	RetrySegs  []*SegObs `json:"retry_segs,omitempty"`
 	RetryFault *SegObs   `json:"retry_fault,omitempty"`
 	RetryAt    int       `json:"retry_at,omitempty"`
+	// Conc[r][i]: the calls of the session of caller i+1 in round r of the concurrent sessions (Case.Conc); ConcErr: the
+	// fresh compile failed (cannot happen: the same construction compiled a moment ago)
+	Conc       [][][]*SegObs `json:"conc,omitempty"`
+	ConcErr    string      `json:"conc_err,omitempty"`
 	RefScheds  []SchedObs `json:"ref_scheds,omitempty"`
 	Scheds     []SchedObs `json:"scheds,omitempty"`
 }
@@ -468,8 +472,10 @@ func (c *Case) input() map[string]any {
 // and then the interrupted run with up to MaxResumes resumes.
 func Execute(c *Case) *RunObs { return ExecuteFor(c, false) }
 
-// ExecuteFor: retryPhase = also run the retry phase of Case.Retry (C05 only).
+// ExecuteFor: retryPhase = also run the retry phase of Case.Retry (C05 only); otherwise (C06) the phase of
+// concurrent first calls of Case.Conc.
 func ExecuteFor(c *Case, retryPhase bool) *RunObs {
+	concPhase := !retryPhase
 	obs := &RunObs{}
 	ctx := context.Background()
 
@@ -562,7 +568,11 @@ func ExecuteFor(c *Case, retryPhase bool) *RunObs {
 		}
 		return
 	}
-	obs.Segs, obs.Finished = driveRun(cpID)
+	firstID := cpID
+	if c.EmptyID {
+		firstID = "" // an id like any other
+	}
+	obs.Segs, obs.Finished = driveRun(firstID)
 	if eager {
 		obs.Scheds = collectScheds(c)
 	}
@@ -574,7 +584,7 @@ func ExecuteFor(c *Case, retryPhase bool) *RunObs {
 		rec.mu.Lock()
 		rec.rerunOn = false
 		rec.mu.Unlock()
-		obs.Repeat = call(resumeOn(), rec, st, c.Calls[(n-1)%len(c.Calls)], true, cpID, map[string]any{"resume": strconv.Itoa(n - 1)})
+		obs.Repeat = call(resumeOn(), rec, st, c.Calls[(n-1)%len(c.Calls)], true, firstID, map[string]any{"resume": strconv.Itoa(n - 1)})
 		rec.mu.Lock()
 		rec.rerunOn = true
 		rec.mu.Unlock()
@@ -650,6 +660,10 @@ func ExecuteFor(c *Case, retryPhase bool) *RunObs {
 				break
 			}
 		}
+	}
+	// Concurrent first calls on a freshly compiled runnable (C06, Case.Conc; direct oracle only)
+	if c.Conc > 1 && concPhase {
+		obs.Conc, obs.ConcErr = concurrentFirstCalls(ctx, c, 2)
 	}
 	return obs
 }
